@@ -173,4 +173,6 @@ class E2(Component):
         return case
 
 
-COMPONENTS = [Random(), E1(), E2()]
+from .c02 import Dense  # noqa: E402  (dense all-subsets tables: completeness is asserted there too)
+
+COMPONENTS = [Random(), E1(), E2(), Dense()]
